@@ -10,5 +10,5 @@ src=gen/${id}_all.ml
 cat gen/${id}_model.ml conv.ml ${id}_driver.ml > $src.new
 if [ -f $src ] && cmp -s $src.new $src && [ -x bin/${id}_model ]; then rm -f $src.new; exit 0; fi
 mv $src.new $src
-rm -f gen/${id}_model.mli
+rm -f gen/${id}_model.mli bin/${id}_model    # never leave a stale binary behind a failed compile
 ocamlfind ocamlopt -O2 -w -a -package str $src -linkpkg -o bin/${id}_model 2>&1 || ocamlfind ocamlopt -w -a -package str $src -linkpkg -o bin/${id}_model
